@@ -45,6 +45,23 @@ fn update_emissions_ix(s: &Scen, b: usize, signer: Pubkey, mint: Pubkey, funding
 }
 
 pub fn run(rng: &mut Rng, n: usize, rep: &mut Report) {
+    run_with(rng, n, rep, &mut None)
+}
+
+/// family `liteix`: one line per REAL lending_pool_configure_bank_interest_only / _limits_only executed by this monitor
+pub fn gen(rng: &mut Rng, n: usize, out: &mut Vec<String>) {
+    let mut guard = 0;
+    while out.len() < n && guard < 400 {
+        guard += 1;
+        let mut scratch = Report::default();
+        let mut part: Option<Vec<String>> = Some(vec![]);
+        run_with(rng, 60, &mut scratch, &mut part);
+        out.extend(part.unwrap());
+    }
+    out.truncate(n);
+}
+
+pub fn run_with(rng: &mut Rng, n: usize, rep: &mut Report, lines: &mut Option<Vec<String>>) {
     let mut cells = 0;
     while cells < n {
         let mut s = Scen::build(rng);
@@ -121,6 +138,13 @@ pub fn run(rng: &mut Rng, n: usize, rep: &mut Report) {
                     if let Some(iro) = og.opt.interest_rate_config.clone() {
                         let mut w = s.w.clone();
                         let r = w.exec(&ix::configure_bank_interest_only(&h, curve, iro));
+                        if let Some(v) = lines.as_mut() {
+                            let head = format!("adm.ixir {} {} {}", c.line(), pre.flags, og.line);
+                            match &r {
+                                Ok(()) => v.push(format!("{} => ok {}", head, Cfg::from_bank(&w.bank(&bkey)).line())),
+                                Err(e) => if let Some(code) = e.code() { v.push(format!("{} => err {}", head, code)) },
+                            }
+                        }
                         cells += 1;
                         rep.bump("cases");
                         if r.is_ok() {
@@ -138,6 +162,13 @@ pub fn run(rng: &mut Rng, n: usize, rep: &mut Report) {
                     let mut w = s.w.clone();
                     let (d, bl, il) = (Some(rng.u64_mixed()), if rng.chance(1, 2) { Some(rng.u64_mixed()) } else { None }, Some(rng.u64_mixed()));
                     let r = w.exec(&ix::configure_bank_limits_only(&h, limit, d, bl, il));
+                    if let Some(v) = lines.as_mut() {
+                        let o = |x: Option<u64>| match x { Some(y) => format!("1 {}", y), None => "0 0".to_string() };
+                        let head = format!("adm.ixlim {} {} {} {} {}", Cfg::from_bank(&pre).line(), pre.flags, o(d), o(bl), o(il));
+                        if r.is_ok() {
+                            v.push(format!("{} => ok {}", head, Cfg::from_bank(&w.bank(&bkey)).line()));
+                        }
+                    }
                     cells += 1;
                     rep.bump("cases");
                     if r.is_ok() {
